@@ -46,6 +46,8 @@ func init() {
 		Assume: []string{"the first CEA delivered before the dial returns decides; exact ties with the dial's return accept either outcome", "retransmission spacing is measured from the return of one CER write to the start of the next"},
 		Scenarios: []*Scenario{
 			{Name: "dial", Weight: 1, Bubble: true, Run: c12Run},
+			{Name: "sweep-dial", Bubble: true, Run: c12Sweep, SweepN: c12SweepN, QuickSweep: true, Exhaustive: true,
+				SweepNote: "MaxRetransmits 0..3 x answer the k-th CER for every k (or never) x 10 CEA kinds x 6 delays relative to the retransmit deadline (0, half, -1 ns, +1 ns, on it, after the whole budget), each followed by a duplicate success CEA, a failing CEA and an application answer: 840 cases"},
 		},
 		MustProbes: []string{"handshake-success", "handshake-timeout", "extra-cea-survived", "write-stall", "peer-eof", "peer-rst"},
 	})
@@ -61,6 +63,8 @@ func init() {
 		Scenarios: []*Scenario{
 			{Name: "client-watchdog", Weight: 3, Bubble: true, Run: func(e *Env) { c13Client(e, false) }},
 			{Name: "answering", Weight: 1, Bubble: true, Run: func(e *Env) { smaRun(e, "C13") }},
+			{Name: "sweep-plans", Bubble: true, Run: c13Sweep, SweepN: c13SweepN, QuickSweep: true, Exhaustive: true,
+				SweepNote: "MaxRetransmits 0..2 x every sequence of 1-3 watchdog cycles over 8 per-cycle peer plans (ack at 0 / half / 1 ns before the deadline, ack only the 1st retransmission, failure code then success, answer every transmission one interval late, answer late, silence): 1 752 cases"},
 		},
 		MustProbes: []string{"cycle-acked", "silent-peer-closed", "spared-20-cycles", "dwa-checked", "dwa-surplus", "dwa-failure-code", "client-role-dwa", "app-write-stalled"},
 	})
